@@ -1,7 +1,12 @@
-Require Import LdkV.Prim.U64 LdkV.Gen.Consts LdkV.Model.CltvHand LdkV.Model.Timeline.
+Require Import LdkV.Prim.U64 LdkV.Gen.Consts LdkV.Gen.CltvChecks LdkV.Model.CltvHand LdkV.Model.Timeline.
 Open Scope Z_scope.
 
-Ltac consts := repeat autounfold with ldk_consts in *.
+Ltac pow2s :=
+  repeat match goal with
+  | |- context [2 ^ ?n] => let v := eval vm_compute in (2 ^ n) in change (2 ^ n) with v
+  | H : context [2 ^ ?n] |- _ => let v := eval vm_compute in (2 ^ n) in change (2 ^ n) with v in H
+  end.
+Ltac consts := repeat autounfold with ldk_consts in *; unfold cast_u in *; pow2s.
 
 (** The three [const] assertions of channelmanager.rs and the one of channelmonitor.rs. *)
 Lemma static_assertions :
@@ -23,11 +28,11 @@ Proof. consts. lia. Qed.
 
 (** check_incoming_htlc_cltv: exact characterisation *)
 Lemma fwd_ok_iff h out inn d :
-  h_check_incoming_htlc_cltv h out inn d = ROk tt <->
+  check_incoming_htlc_cltv h out inn d = ROk tt <->
   (inn >= out + d /\ inn > h + HTLC_FAIL_BACK_BUFFER /\ inn <= h + CLTV_FAR_FAR_AWAY /\
    out > h + LATENCY_GRACE_PERIOD_BLOCKS).
 Proof.
-  unfold h_check_incoming_htlc_cltv.
+  unfold check_incoming_htlc_cltv.
   destruct (Z.ltb_spec inn (out + d)); [split; [discriminate | lia]|].
   destruct (Z.leb_spec inn (h + HTLC_FAIL_BACK_BUFFER)); [split; [discriminate | lia]|].
   destruct (Z.ltb_spec (h + CLTV_FAR_FAR_AWAY) inn); [split; [discriminate | lia]|].
@@ -36,16 +41,16 @@ Proof.
 Qed.
 
 Lemma fwd_errors h out inn d :
-  (inn < out + d -> h_check_incoming_htlc_cltv h out inn d = RErr "IncorrectCLTVExpiry") /\
+  (inn < out + d -> check_incoming_htlc_cltv h out inn d = RErr "IncorrectCLTVExpiry") /\
   (inn >= out + d -> inn <= h + HTLC_FAIL_BACK_BUFFER ->
-     h_check_incoming_htlc_cltv h out inn d = RErr "CLTVExpiryTooSoon") /\
+     check_incoming_htlc_cltv h out inn d = RErr "CLTVExpiryTooSoon") /\
   (inn >= out + d -> inn > h + HTLC_FAIL_BACK_BUFFER -> inn > h + CLTV_FAR_FAR_AWAY ->
-     h_check_incoming_htlc_cltv h out inn d = RErr "CLTVExpiryTooFar") /\
+     check_incoming_htlc_cltv h out inn d = RErr "CLTVExpiryTooFar") /\
   (inn >= out + d -> inn > h + HTLC_FAIL_BACK_BUFFER -> inn <= h + CLTV_FAR_FAR_AWAY ->
      out <= h + LATENCY_GRACE_PERIOD_BLOCKS ->
-     h_check_incoming_htlc_cltv h out inn d = RErr "OutgoingCLTVTooSoon").
+     check_incoming_htlc_cltv h out inn d = RErr "OutgoingCLTVTooSoon").
 Proof.
-  unfold h_check_incoming_htlc_cltv. repeat split; intros;
+  unfold check_incoming_htlc_cltv. repeat split; intros;
   destruct (Z.ltb_spec inn (out + d)); try lia; try reflexivity;
   destruct (Z.leb_spec inn (h + HTLC_FAIL_BACK_BUFFER)); try lia; try reflexivity;
   destruct (Z.ltb_spec (h + CLTV_FAR_FAR_AWAY) inn); try lia; try reflexivity;
@@ -54,12 +59,13 @@ Qed.
 
 (** no arithmetic panic for heights that leave room for the look-ahead window *)
 Lemma fwd_safe h out inn d :
-  0 <= h -> h + CLTV_FAR_FAR_AWAY < 2 ^ 32 ->
-  h_check_incoming_htlc_cltv_safe h out inn d = true.
+  0 <= h -> h + CLTV_FAR_FAR_AWAY < 2 ^ 32 -> 0 <= out < 2 ^ 32 -> 0 <= d < 2 ^ 16 ->
+  check_incoming_htlc_cltv_safe h out inn d = true.
 Proof.
-  intros H0 H1. unfold h_check_incoming_htlc_cltv_safe.
+  intros H0 H1 Ho Hd. unfold check_incoming_htlc_cltv_safe.
   assert (h + HTLC_FAIL_BACK_BUFFER < 2 ^ 32) by (consts; lia).
   assert (h + LATENCY_GRACE_PERIOD_BLOCKS < 2 ^ 32) by (consts; lia).
+  destruct (Z.ltb_spec (out + d) (2 ^ 64)); [|lia]. cbn [andb].
   destruct (Z.ltb_spec inn (out + d)); [reflexivity|].
   destruct (Z.ltb_spec (h + HTLC_FAIL_BACK_BUFFER) (2 ^ 32)); [|lia]. cbn [andb].
   destruct (Z.leb_spec inn (h + HTLC_FAIL_BACK_BUFFER)); [reflexivity|].
@@ -73,14 +79,14 @@ Definition claim_deadline (cltv : Z) : Z := cltv - HTLC_FAIL_BACK_BUFFER.
 
 Lemma receive_margins cltv h :
   0 <= h ->
-  h_final_expiry_too_soon cltv h = false ->
+  final_hop_cltv_too_soon cltv h = false ->
   cltv > h + HTLC_FAIL_BACK_BUFFER + 1 /\
   claim_deadline cltv > h + 1 /\
-  h_check_onchain_timeout_safe cltv h = true /\
-  (forall h', h' < claim_deadline cltv -> h_check_onchain_timeout cltv h' = false) /\
-  (forall h', claim_deadline cltv <= h' -> h_check_onchain_timeout cltv h' = true).
+  check_onchain_timeout_safe cltv h = true /\
+  (forall h', h' < claim_deadline cltv -> check_onchain_timeout cltv h' = false) /\
+  (forall h', claim_deadline cltv <= h' -> check_onchain_timeout cltv h' = true).
 Proof.
-  unfold h_final_expiry_too_soon, claim_deadline, h_check_onchain_timeout, h_check_onchain_timeout_safe.
+  unfold final_hop_cltv_too_soon, claim_deadline, check_onchain_timeout, check_onchain_timeout_safe.
   intros H0 H. apply Z.leb_gt in H.
   assert (0 < HTLC_FAIL_BACK_BUFFER) by (consts; lia).
   repeat split; try lia; intros; lia.
@@ -89,27 +95,27 @@ Qed.
 (** A part accepted at height [h] is still claimable (not timed out) at the height it was accepted
     and one block later: the "+ 1" of the final-hop check closes the race between a block and the claim. *)
 Lemma receive_no_immediate_timeout cltv h :
-  h_final_expiry_too_soon cltv h = false ->
-  h_check_onchain_timeout cltv h = false /\ h_check_onchain_timeout cltv (h + 1) = false.
+  final_hop_cltv_too_soon cltv h = false ->
+  check_onchain_timeout cltv h = false /\ check_onchain_timeout cltv (h + 1) = false.
 Proof.
-  unfold h_final_expiry_too_soon, h_check_onchain_timeout. intros H. apply Z.leb_gt in H. lia.
+  unfold final_hop_cltv_too_soon, check_onchain_timeout. intros H. apply Z.leb_gt in H. lia.
 Qed.
 
 (** When the node fails a claimable HTLC back itself (deadline reached) the monitor has not yet gone
     on chain for it, and will not before [LATENCY_GRACE_PERIOD_BLOCKS] more blocks. *)
 Lemma failback_before_onchain cltv h :
   h < claim_deadline cltv + LATENCY_GRACE_PERIOD_BLOCKS ->
-  h_should_broadcast false cltv h true = false.
+  should_broadcast_htlc_timeout false cltv h true = false.
 Proof.
-  unfold claim_deadline, h_should_broadcast. consts. intros. cbn [negb andb orb]. lia.
+  unfold claim_deadline, should_broadcast_htlc_timeout. consts. intros. cbn [negb andb orb]. lia.
 Qed.
 
 Lemma outbound_grace expiry H :
-  h_should_broadcast true expiry H false = true <-> H >= expiry + LATENCY_GRACE_PERIOD_BLOCKS.
-Proof. unfold h_should_broadcast. cbn [negb andb orb]. lia. Qed.
+  should_broadcast_htlc_timeout true expiry H false = true <-> H >= expiry + LATENCY_GRACE_PERIOD_BLOCKS.
+Proof. unfold should_broadcast_htlc_timeout. cbn [negb andb orb]. lia. Qed.
 
 Lemma outbound_first expiry h0 H :
-  first_fires (fun h => h_should_broadcast true expiry h false) h0 H ->
+  first_fires (fun h => should_broadcast_htlc_timeout true expiry h false) h0 H ->
   H = Z.max h0 (expiry + LATENCY_GRACE_PERIOD_BLOCKS).
 Proof.
   intros (Hle & Ht & Hf). apply outbound_grace in Ht.
@@ -121,11 +127,11 @@ Proof.
 Qed.
 
 Lemma inbound_trigger cltv H :
-  h_should_broadcast false cltv H true = true <-> H >= cltv - CLTV_CLAIM_BUFFER.
-Proof. unfold h_should_broadcast. cbn [negb andb orb]. lia. Qed.
+  should_broadcast_htlc_timeout false cltv H true = true <-> H >= cltv - CLTV_CLAIM_BUFFER.
+Proof. unfold should_broadcast_htlc_timeout. cbn [negb andb orb]. lia. Qed.
 
-Lemma inbound_no_preimage cltv H : h_should_broadcast false cltv H false = false.
-Proof. unfold h_should_broadcast. cbn [negb andb orb]. lia. Qed.
+Lemma inbound_no_preimage cltv H : should_broadcast_htlc_timeout false cltv H false = false.
+Proof. unfold should_broadcast_htlc_timeout. cbn [negb andb orb]. lia. Qed.
 
 Lemma claim_in_time cltv h0 t :
   h0 <= cltv - CLTV_CLAIM_BUFFER ->
@@ -143,13 +149,15 @@ Proof.
   split; [exact HH|]. revert Hb Hd. consts. lia.
 Qed.
 
-Lemma threshold_ge height csv :
-  h_confirmation_threshold height csv >= height + ANTI_REORG_DELAY - 1 /\
-  (forall c, csv = Some c -> h_confirmation_threshold height csv >= height + c - 1).
+Lemma threshold_ge height kind delay csv :
+  confirmation_threshold height kind delay csv >= height + ANTI_REORG_DELAY - 1 /\
+  (kind = OnchainEventKind_MaturingDelayedPaymentOutput ->
+     confirmation_threshold height kind delay csv >= height + delay - 1) /\
+  (forall c, kind = OnchainEventKind_SpendConfirmation -> csv = Some c ->
+     confirmation_threshold height kind delay csv >= height + c - 1).
 Proof.
-  unfold h_confirmation_threshold. destruct csv as [c|].
-  - split; [lia|]. intros c' [= ->]. lia.
-  - split; [lia|]. discriminate.
+  unfold confirmation_threshold. destruct kind, csv as [c|]; repeat split; intros; try discriminate;
+    try (match goal with H : Some _ = Some _ |- _ => injection H as <- end); lia.
 Qed.
 
 (** The race of the forwarding node against its upstream peer, dead downstream. *)
@@ -166,13 +174,23 @@ Proof.
   intros Hd Hin Hh0 (Hff & (Ha & Hb) & (Hc & He) & HF).
   apply outbound_first in Hff.
   assert (tl_H t = out_cltv + LATENCY_GRACE_PERIOD_BLOCKS) as HH by lia.
-  unfold h_confirmation_threshold in HF.
+  unfold confirmation_threshold in HF.
   split; [exact HH|]. revert Hd Hin Hb He HF. rewrite HH. consts. lia.
 Qed.
 
 (** Cross-check with an accepted forward: the four margins together give the node the whole window. *)
 Lemma accepted_forward_has_window h out inn d :
   d >= MIN_CLTV_EXPIRY_DELTA ->
-  h_check_incoming_htlc_cltv h out inn d = ROk tt ->
+  check_incoming_htlc_cltv h out inn d = ROk tt ->
   inn - out >= MIN_CLTV_EXPIRY_DELTA /\ out + LATENCY_GRACE_PERIOD_BLOCKS > h.
 Proof. intros Hd H. apply fwd_ok_iff in H. consts. lia. Qed.
+
+(** The hand transliteration used by older correspondence runs equals the regenerated code. *)
+Lemma hand_eq_gen :
+  (forall h o i d, h_check_incoming_htlc_cltv h o i d = check_incoming_htlc_cltv h o i d) /\
+  (forall c h, h_check_onchain_timeout c h = check_onchain_timeout c h) /\
+  (forall c h, h_final_expiry_too_soon c h = final_hop_cltv_too_soon c h) /\
+  (forall o c h p, h_should_broadcast o c h p = should_broadcast_htlc_timeout o c h p) /\
+  (forall h c, h_confirmation_threshold h (Some c) = confirmation_threshold h OnchainEventKind_SpendConfirmation 0 (Some c)) /\
+  (forall h, h_confirmation_threshold h None = confirmation_threshold h OnchainEventKind_Other 0 None).
+Proof. repeat split; intros; reflexivity. Qed.
